@@ -23,6 +23,36 @@ RULES = {
 }
 
 
+def _walk_worker(args):
+    """thorough tier: one worker = its own driver, PRNG stream and share of the generated worlds"""
+    prop, wseed, ngen, walks, steps, shipped = args
+    rng = random.Random(wseed)
+    S = CW.Stats()
+    fails = []
+    drv = Driver()
+    try:
+        specs = CW.world_specs(rng, ngen, shipped=shipped)
+        CW.run_walks(drv, rng, S, lambda p, sig, desc, rep: fails.append((p, sig, desc, rep)), specs, walks, steps,
+                     reachable_only=(prop in ("C11", "C12")))
+    finally:
+        drv.close()
+    return fails, S
+
+
+def _merge_stats(A, B):
+    for k, v in vars(B).items():
+        a = getattr(A, k, None)
+        if isinstance(v, set):
+            a |= v
+        elif isinstance(v, dict):
+            for kk, vv in v.items():
+                a[kk] = a.get(kk, 0) + vv
+        elif isinstance(v, list):
+            a += v
+        elif isinstance(v, (int, float)):
+            setattr(A, k, (a or 0) + v)
+
+
 def main(prop, tier, replay=None):
     T = Timer()
     V = Verdict(prop)
@@ -50,8 +80,19 @@ def main(prop, tier, replay=None):
             steps = 60 if quick else 100
             if prop == "C08":
                 steps = 30 if quick else 60
-            specs = CW.world_specs(rng, ngen)
-            CW.run_walks(drv, rng, S, on_fail, specs, walks, steps, reachable_only=(prop in ("C11", "C12")))
+            if quick:
+                specs = CW.world_specs(rng, ngen)
+                CW.run_walks(drv, rng, S, on_fail, specs, walks, steps, reachable_only=(prop in ("C11", "C12")))
+            else:
+                from concurrent.futures import ProcessPoolExecutor
+                workers = 12
+                base = rng.randrange(1 << 40)
+                jobs = [(prop, base + w, 40, walks, steps, w == 0) for w in range(workers)]
+                with ProcessPoolExecutor(max_workers=workers) as ex:
+                    for fails, S2 in ex.map(_walk_worker, jobs):
+                        _merge_stats(S, S2)
+                        for p_, sig, desc, rep in fails:
+                            on_fail(p_, sig, desc, rep)
             if prop == "C08" and info.get("tables"):
                 # coordinator level: whatever completes a reset (the last request, a departure), the world is restored
                 from . import check_coord as CC
@@ -64,6 +105,7 @@ def main(prop, tier, replay=None):
                             fails_other[t] = fails_other.get(t, 0) + 1
                 CC.run_sessions(drv, rng, info["tables"]["defender"], cfail8, coord_stats, 60 if quick else 600, 45,
                                 {"burst": 0.15, "leave": 0.10, "bad": 0.02, "early_reset": 0.08})
+                CC.directed_sessions(drv, rng, info["tables"]["defender"], cfail8, coord_stats, 24 if quick else 400)
             if prop == "C11" and info.get("tables"):
                 # coordinator level: the views agents are actually SENT (start of every episode, static and dynamic addresses,
                 # 'all_local' / 'random' start positions) list only hosts that exist and everything the start position lists
@@ -104,7 +146,7 @@ def main(prop, tier, replay=None):
            "pre_true": S.pre_true, "pre_false": S.pre_false, "raised": S.raised, "scenario_loads": S.loads, "resets": S.resets,
            "single_false_guard_histogram": {f"{k[0]}#{k[1]}": v for k, v in sorted(S.guard_only_false.items())},
            "earlier_view_recomparisons": S.snap_checks, "directed_interference_probes": S.directed_interference, "post_reset_readonly_probes": S.post_reset_probes,
-           "coordinator_session_events": coord_stats.get("events", 0),
+           "coordinator_session_events": coord_stats.get("events", 0), "directed_coordinator_sessions": coord_stats.get("directed_sessions", 0),
            "out_of_scope_disagreements": fails_other, "proof_failures": V.proof_failures}
     write_evidence(prop, tier, "proof", cov, T.s(), nviol,
                    ["one read = one client message is irrelevant here: world-level check calls _execute_action directly",
@@ -113,4 +155,5 @@ def main(prop, tier, replay=None):
 
 
 if __name__ == "__main__":
-    sys.exit(main(sys.argv[1], sys.argv[2] if len(sys.argv) > 2 else "quick"))
+    from .common import guarded
+    sys.exit(guarded(sys.argv[1], sys.argv[2] if len(sys.argv) > 2 else "quick", lambda: main(sys.argv[1], sys.argv[2] if len(sys.argv) > 2 else "quick")))
